@@ -145,7 +145,7 @@ type op struct {
 
 var requestSerial atomic.Uint64
 
-var inboundKinds = []string{"read", "read-discovery", "read-usecase", "notify", "reply", "reply-awaited", "reply-awaited", "write", "write-approval", "subscribe", "unsubscribe", "bind", "unbind", "result", "entity-removed", "entity-added"}
+var inboundKinds = []string{"read", "read-discovery", "read-usecase", "notify", "notify-not-applicable", "announce", "reply", "reply-awaited", "reply-awaited", "write", "write-approval", "subscribe", "unsubscribe", "bind", "unbind", "result", "entity-removed", "entity-added"}
 var localKinds = []string{"setdata", "updatedata", "datacopy-encode", "usecase-add", "usecase-remove", "usecase-avail", "add-entity", "remove-entity", "getoradd", "addfunction",
 	"subscribe-remote", "bind-remote", "request-remote", "request-awaited", "request-awaited", "request-burst", "heartbeat-start", "heartbeat-stop", "heartbeat-running", "event-subscribe", "event-unsubscribe", "lookup-notify",
 	"describe", "registry-read", "remote-tree-read", "reconnect"}
@@ -191,6 +191,25 @@ func (e *env) inbound(p *world.Peer, o op) {
 		send(model.CmdClassifierTypeRead, p.NM(), world.LocalNM(), false, nil, model.CmdType{NodeManagementUseCaseData: &model.NodeManagementUseCaseDataType{}})
 	case "notify":
 		send(model.CmdClassifierTypeNotify, p.FA([]uint{1}, 3), e.cli.Address(), o.A == 0, nil, *o.Cmd)
+	case "notify-not-applicable":
+		// a restricted update that cannot be applied - a selector without an item to take the new values from, or a
+		// delete filter on top: the message is refused (or its handling recovered); the remote feature it was for
+		// must stay usable for the next message and for the application's readers
+		f := gen.ByFunction(model.FunctionTypeMeasurementListData)
+		flt := model.NewFilterTypePartial()
+		flt.MeasurementListDataSelectors = listgen.SelectorFor(f, []uint64{uint64(o.A % 2), 0}).Interface().(*model.MeasurementListDataSelectorsType)
+		cmd := model.CmdType{Function: util.Ptr(model.FunctionTypeMeasurementListData), Filter: []model.FilterType{*flt}, MeasurementListData: &model.MeasurementListDataType{}}
+		if o.B%2 == 1 {
+			cmd.Filter = append([]model.FilterType{{CmdControl: &model.CmdControlType{Delete: &model.ElementTagType{}}, MeasurementListDataSelectors: flt.MeasurementListDataSelectors}}, cmd.Filter...)
+		}
+		cl, ref := model.CmdClassifierTypeNotify, (*model.MsgCounterType)(nil)
+		if o.B >= 2 {
+			cl, ref = model.CmdClassifierTypeReply, p.DiscoveryRef
+		}
+		send(cl, p.FA([]uint{1}, 3), e.cli.Address(), false, ref, cmd)
+	case "announce":
+		// the peer announces itself again (a further reply to the discovery read)
+		send(model.CmdClassifierTypeReply, p.NM(), world.LocalNM(), false, p.DiscoveryRef, model.CmdType{NodeManagementDetailedDiscoveryData: p.DiscoveryData(p.Ents, nil)})
 	case "reply":
 		send(model.CmdClassifierTypeReply, p.FA([]uint{1}, 3), e.cli.Address(), false, p.DiscoveryRef, *o.Cmd)
 	case "reply-awaited":
@@ -373,8 +392,12 @@ func (e *env) local(o op, peers []*world.Peer) {
 			}
 			_ = d.UseCases()
 			_ = d.Address()
+			_ = d.DestinationData()
+			_ = d.DeviceType()
+			_ = d.FeatureSet()
 		}
 		_ = e.w.Local.RemoteDevices()
+		_ = e.w.Local.DestinationData()
 	}
 }
 
@@ -848,6 +871,30 @@ func TestStorms(t *testing.T) {
 					p1.Send(p1.Msg(model.CmdClassifierTypeReply, p1.NM(), world.LocalNM(), false, p1.DiscoveryRef, cmd))
 				}
 			},
+		}
+	})
+	// a peer announces itself again and again (its device data is updated) while application goroutines ask the
+	// remote device object for its address, type, feature set and destination data
+	run("announcements-vs-device-readers", func(e *env, stop *atomic.Bool) []func() {
+		p0 := e.w.Peers[0]
+		reader := func() {
+			for !stop.Load() {
+				if d := e.w.Local.RemoteDeviceForSki(p0.Ski); d != nil {
+					_ = d.DestinationData()
+					_ = d.Address()
+					_ = d.DeviceType()
+					_ = d.FeatureSet()
+				}
+			}
+		}
+		return []func(){
+			func() {
+				for i := 0; i < 400; i++ {
+					e.inbound(p0, op{Kind: "announce"})
+				}
+				stop.Store(true)
+			},
+			reader, reader,
 		}
 	})
 	// bind requests for one server feature on two connections at once (one wins), deletes, writes
